@@ -273,6 +273,13 @@ func c11parseOpts(tok string) (c11Opts, error) {
 
 // ---------------------------------------------------------------- case execution
 
+type c11ColOp struct {
+	lo, hi int
+	isW    bool
+	w      float64
+	st     int
+}
+
 type c11Cell struct {
 	col, row int
 	it       c11Item
@@ -295,6 +302,7 @@ type c11Case struct {
 	colsSeen map[int]bool
 	merges   int
 	x14      bool
+	colOps   []c11ColOp
 	mrects   [][4]int
 	table    bool
 	flushed  bool
@@ -592,7 +600,7 @@ func (c *c11Case) exec(line string) {
 		if pan {
 			return
 		}
-		c.op(fmt.Sprintf("colwidth %d %d %d %s", a, b, w4, c11hexb(xl.VerifC11PreData(c.sw))), c11res(err))
+		c.op(fmt.Sprintf("colwidth %d %d %d %s", a, b, w4, c11hexb(xl.VerifC11Fields(c.sw, 4, 5))), c11res(err))
 		r.Stat("op:colwidth:" + c11res(err))
 		exp := c.accepted == 0 && a >= 1 && a <= xl.MaxColumns && b >= 1 && b <= xl.MaxColumns && w4 <= 4*xl.MaxColumnWidth
 		if exp != (err == nil) {
@@ -607,6 +615,10 @@ func (c *c11Case) exec(line string) {
 				c.fail("twin:error", fmt.Sprintf("in-memory SetColWidth: %v", e), 0)
 			}
 			c.colsSeen[lo], c.colsSeen[hi] = true, true
+			c.colOps = append(c.colOps, c11ColOp{lo, hi, true, float64(w4) / 4, 0}) // the harness's own last-writer-wins history
+			for k := lo; k <= hi && k-lo < 8; k++ {
+				c.colsSeen[k] = true
+			}
 		}
 	case "colstyle":
 		a, _ := strconv.Atoi(w[1])
@@ -616,7 +628,7 @@ func (c *c11Case) exec(line string) {
 		if pan {
 			return
 		}
-		c.op(fmt.Sprintf("colstyle %d %d %d %s", a, b, st, c11hexb(xl.VerifC11PreData(c.sw))), c11res(err))
+		c.op(fmt.Sprintf("colstyle %d %d %d %s", a, b, st, c11hexb(xl.VerifC11Fields(c.sw, 4, 5))), c11res(err))
 		r.Stat("op:colstyle:" + c11res(err))
 		if exp := c.accepted == 0 && a >= 1 && a <= xl.MaxColumns && b >= 1 && b <= xl.MaxColumns && st >= 0 && st < xl.VerifC11StyleCount(c.sf); exp != (err == nil) {
 			c.fail("colstyle:verdict", fmt.Sprintf("SetColStyle(%d,%d,%d) = %v, expected accept=%v (rows accepted so far: %d)", a, b, st, err, exp, c.accepted), 0)
@@ -630,6 +642,10 @@ func (c *c11Case) exec(line string) {
 				c.fail("twin:error", fmt.Sprintf("in-memory SetColStyle: %v", e), 0)
 			}
 			c.colsSeen[lo], c.colsSeen[hi] = true, true
+			c.colOps = append(c.colOps, c11ColOp{lo, hi, false, 0, st})
+			for k := lo; k <= hi && k-lo < 8; k++ {
+				c.colsSeen[k] = true
+			}
 		}
 	case "panes":
 		p := c11panes(w[1])
@@ -641,7 +657,7 @@ func (c *c11Case) exec(line string) {
 		if p == nil {
 			ok = "0"
 		}
-		c.op(fmt.Sprintf("panes %s %s", ok, c11hexb(xl.VerifC11PreData(c.sw))), c11res(err))
+		c.op(fmt.Sprintf("panes %s %s", ok, c11hexb(xl.VerifC11Fields(c.sw, 4, 5))), c11res(err))
 		r.Stat("op:panes:" + c11res(err))
 		if exp := c.accepted == 0 && p != nil; exp != (err == nil) {
 			c.fail("panes:verdict", fmt.Sprintf("SetPanes = %v, expected accept=%v (rows accepted so far: %d)", err, exp, c.accepted), 0)
@@ -1155,6 +1171,24 @@ func (c *c11Case) compare() {
 		s2, _ := mg.GetColStyle(c11Sheet, nm)
 		if w1 != w2 || s1 != s2 {
 			c.fail("col:attrs", fmt.Sprintf("column %s: width/style stream %v/%d, in-memory %v/%d", nm, w1, s1, w2, s2), 0)
+			break
+		}
+		// independent of the twin (both APIs share ws.setColWidth/setColStyle): pointwise last writer wins
+		ew, es := 0.0, 0
+		for _, o := range c.colOps {
+			if o.lo <= k && k <= o.hi {
+				if o.isW {
+					ew = o.w
+				} else {
+					es = o.st
+				}
+			}
+		}
+		if ew == 0 {
+			ew = 9.140625 // GetColWidth reads a missing and a zero width as the default width
+		}
+		if s1 != es || w1 != ew {
+			c.fail("col:lww", fmt.Sprintf("column %s: width/style read back %v/%d, the last SetColWidth/SetColStyle covering it gave %v/%d", nm, w1, s1, ew, es), 0)
 			break
 		}
 	}
